@@ -38,12 +38,14 @@ let c6_dparms (s : string) : c06_dparms =
   else if String.length s >= 2 && String.sub s 0 2 = "a." then C6DpArray (List.map c6_parm (c6_split ',' (String.sub s 2 (String.length s - 2))))
   else failwith "dparms"
 
-(* kind: s:o | s:m | s:t | t:<xref01><meta01>:<filter>:<dparms> *)
+(* kind: s:o | s:m | s:t | s:g1 | s:g0 (signature /Contents, dictionary with / without /Type /Sig) | t:<xref01><meta01>:<filter>:<dparms> *)
 let c6_kind (s : string) : c06_kind =
   match String.split_on_char ':' s with
   | ["s"; "o"] -> C6String C6InObject
   | ["s"; "m"] -> C6String C6InObjStm
   | ["s"; "t"] -> C6String C6InTrailer
+  | ["s"; "g1"] -> C6String (C6InSigContents true)
+  | ["s"; "g0"] -> C6String (C6InSigContents false)
   | ["t"; fl; f; d] ->
     C6Stream { c6d_xref = (fl.[0] = '1'); c6d_filter = c6_filter f; c6d_dparms = c6_dparms d; c6d_rootmeta = (fl.[1] = '1') }
   | _ -> failwith "kind"
